@@ -43,7 +43,7 @@ CHECKS = {
         technique="Rocq proof over intrinsic-level kernel models + direct per-kernel correspondence",
         ref="DESIGN.md section 5, C11"),
     "C12": dict(
-        text="PARTIAL (logic only). Proved: every load/store/unchecked index recorded by each kernel model lies inside its buffer for all lengths (C12_kernel_in_bounds, 14 kernels), table look-ups in bounds (C12_tables_in_bounds, C10_unchecked_in_bounds), an out-of-bounds access would surface as a model panic and never occurs (C12_kernels_never_out_of_bounds); the slab's paired borrow asserts distinct in-range indices (model of get_pair_mut, C09_replay_shape). Validated only: real kernels run with guard bytes on both sides of every buffer at 64 alignments, slab op lists against the model.",
+        text="PARTIAL (logic only). Proved: every load/store/unchecked index recorded by each kernel model lies inside its buffer for all lengths (C12_kernel_in_bounds, 14 kernels), table look-ups in bounds (C12_tables_in_bounds, C10_unchecked_in_bounds), an out-of-bounds access would surface as a model panic and never occurs (C12_kernels_never_out_of_bounds); the slab's paired borrow: C12_slab_pair_in_bounds_and_disjoint (whenever get_pair_mut does not panic its two raw slices are symbol_size long, inside the count*symbol_size bytes and disjoint, for every mapping incl. non-permutations) and C12_slab_pair_agrees_with_model (the byte-offset computation and the symbol-level model of C09 take the same decisions). Validated only: real kernels run with guard bytes on both sides of every buffer at 64 alignments, slab op lists against the model.",
         note="Cannot be exhibited by the model: pointer provenance, allocator slack, compiler reordering, what the CPU does on an actual out-of-bounds access; that the recorded access lists are exactly what the Rust performs is by construction of the hand model and validated by canaries, not proved. No axioms.",
         technique="Rocq proof of index bounds over access-list models + guard-byte validation (partial)",
         ref="DESIGN.md section 5, C12"),
